@@ -327,6 +327,24 @@ func (fx *FnExec) mergeResults(orig *Frame, base int, rs []mergeRes, J *ssa.Basi
 	st := &State{Heap: map[*Object]Value{}, Ghost: map[string]*Term{}}
 	st.PC = append([]*Term(nil), rs[0].st.PC[:base]...)
 	st.Assume(Or(conds...))
+	// quantified hypotheses: those of the first branch that the others share (pointer identity), conservatively
+	for _, q := range rs[0].st.Quants {
+		all := true
+		for _, r := range rs[1:] {
+			found := false
+			for _, q2 := range r.st.Quants {
+				if q2 == q {
+					found = true
+				}
+			}
+			if !found {
+				all = false
+			}
+		}
+		if all {
+			st.Quants = append(st.Quants, q)
+		}
+	}
 	// byte slices that point to different freshly allocated arrays in different branches (e.g. a buffer that was
 	// appended to in one branch only) are re-based onto one merged array so that the states can be joined
 	fx.unifySlices(rs, conds)
